@@ -127,10 +127,11 @@ Proof.
   rewrite slot_of_out by (simpl; lia). exact I.
 Qed.
 
-(* PastOK cannot be dropped: a CHG block whose recorded hash is unique and equals the hash of the data, over a
-   parity that does not encode it, is completed without a parity write.  (In the tool this state cannot be
-   loaded by sync: clear_past_hash resets such hashes; it is what sync itself leaves in a skipped stripe,
-   sync.c:1015 / skipped_disk, finding F-C05a.) *)
+(* Why PastOK is the side condition of theorem 3 (a statement about the hypothesis, not a reachable state of the
+   tool): a CHG block whose recorded hash is unique and equals the hash of the data, over a parity that does not
+   encode it, is completed without a parity write.  sync never loads such a state (clear_past_hash resets these
+   hashes), and since the repair of F-C05a sync no longer produces it either: a skipped stripe keeps its CHG hashes
+   (skipped_disk is the identity; before the repair sync.c copied the computed hash into the block at once). *)
 Definition p_c : content :=
   mkC [Some (mkCD [mkCF 1 1024 0 0 5 false [mkFB SChg 0%nat (w_hashf 42 1024)]] [] [] []); Some (mkCD [] [] [] [])] [] 0%nat.
 Lemma pastok_needed :
